@@ -70,6 +70,7 @@ def fixDeser (buf : Bytes) : Except Err (Option (Bytes × Bytes)) :=
       | none => .ok none
       | some end_ => do
         let n ← parseIntBytes (pySlice buf ((start : Int) + 1) end_)   -- int(self._buffer[start+1:end])
+        if n < 0 then .error .value else                                -- `if body_length < 0: raise ValueError` (repair of the schedule-dependent cut)
         let msgLen : Int := ((end_ : Int) + 1) + n + 7                  -- calc_msg_len(end+1, body_length)
         if (buf.length : Int) < msgLen then pure none
         else pure (some (pySliceTo buf msgLen, pySliceFrom buf msgLen))
